@@ -67,7 +67,9 @@ def c_bank(regs, busw, ordering, address=3, paging=0x800):
         else:
             back = None
             for s in h.ts.state:
-                if (s.name_override or "").endswith(f"r{ri}_backstore"): back = s
+                nm_ = s.name_override or (s.backtrace[-1][0] if getattr(s, "backtrace", None) else "")
+                if (nm_ or "").endswith(f"r{ri}_backstore"): back = s
+            if back is None: raise RuntimeError(f"atomic register r{ri}: staging register not found - the atomic-write clauses cannot be stated")   # never skip silently
             commit = [a for a, lo, hi, i in words if i == 0][0]
             for a, lo, hi, i in words:
                 if i == 0: continue
